@@ -91,6 +91,13 @@ def char_loop(f, fname):
     pnames = [p["pat"].get("name") for p in fn["params"]]
     if it not in pnames:
         raise Anchor("%s: the loop does not iterate over the characters of a parameter" % fname)
+    # .. and over all of them: the iterated expression is exactly `<param>.chars()` (no take / skip / filter / rev adaptor)
+    iters = [c for c in H.calls(body) if c.get("k") == "call" and (c.get("callee") or "") == "core::iter::traits::collect::IntoIterator::into_iter"]
+    if len(iters) != 1:
+        raise Anchor("%s: for-loop iterator not recognised" % fname)
+    ie = H.peel_ref(iters[0]["args"][0])
+    if not (ie.get("k") == "mcall" and ie["name"] == "chars" and not ie.get("args") and H.place(ie["recv"]) == it):
+        raise Anchor("%s: the loop iterates over `%s`, not over every character of the parameter" % (fname, ie.get("src") or ie.get("name")))
     flags = {}
     out_local = None
     for n in walk(body):
